@@ -19,8 +19,9 @@ RecInplace(ev) ==
    C07_new_object_when_not_inplace |-> (Ok(ev) /\ ~ev.args.inplace) => ~ev.obs.ret_is_recv]
 
 Raw(ev) == "raw" \in DOMAIN ev.args
+MergeModesKnown(ev) == ev.args.sample \in {"union", "intersection"} /\ ev.args.observation \in {"union", "intersection"}
 NeedsResult(ev) ==
-  Ok(ev) /\ ~Raw(ev) /\ (ev.call \in {"head", "sort_order", "transpose", "copy"}
+  Ok(ev) /\ ~Raw(ev) /\ (ev.call \in {"head", "sort_order", "transpose", "copy", "merge", "concat"}
                          \/ (ev.call \in {"filter", "remove_empty", "update_ids"} /\ ~ev.args.inplace))
 
 RecClauses(ev) ==
@@ -35,7 +36,13 @@ RecClauses(ev) ==
                                    @@ NewTableClauses(ev)
     [] ev.call = "add_metadata" -> Clauses_add_metadata(ev)
     [] ev.call = "del_metadata" -> Clauses_del_metadata(ev)
-    [] OTHER -> \* merge, concat, align_to, sort, subsample, collapse: documented to return a new table
+    \* merge / concat of two or three tables: the clauses that need only the states (no second run along the other
+    \* path, no logged metadata callbacks: a metadata function other than the default makes those clauses vacuous)
+    [] ev.call = "merge" /\ ~Raw(ev) /\ MergeModesKnown(ev) ->
+         Clauses_merge([ev EXCEPT !.obs = ev.obs @@ [alt_ran |-> FALSE, alt_out |-> "ok", alt |-> ev.pre[ev.recv],
+                                                    mdcalls |-> <<>>]])
+    [] ev.call = "concat" /\ ~Raw(ev) -> Clauses_concat(ev)
+    [] OTHER -> \* (merge, concat of other shapes,) align_to, sort, subsample, collapse: documented to return a new table
                 [C07_inputs_unchanged |-> FrameRule(ev, {ev.res}),
                  C07_result_is_a_new_table |-> (Ok(ev) /\ ev.obs.returned_table) => ~ev.obs.ret_is_recv]
 
